@@ -49,6 +49,11 @@ neighbor 127.0.0.2 {
 
 CONF2 = CONF.replace('route 10.1.0.0/24 next-hop 1.1.1.1;', 'route 10.2.0.0/24 next-hop 1.1.1.1;')
 
+CONF_EXT = CONF.replace('capability { route-refresh enable; }', 'capability { route-refresh enable; extended-message enable; }')
+# the local AS is taken from the peer's OPEN: ExaBGP reads the OPEN first and sends its own after it
+CONF_AUTO = CONF_EXT.replace('local-as 65000;', 'local-as auto;')
+CONFS = {'base': CONF, 'ext': CONF_EXT, 'auto': CONF_AUTO}
+
 HOLD = 180
 OPENWAIT = 60
 
@@ -630,7 +635,7 @@ class Rig:
 # ------------------------------------------------------------------------------- remote speaker bytes
 
 
-def open_bytes(asn=65001, hold=HOLD, rid='10.0.0.9', version=4, caps=True):
+def open_bytes(asn=65001, hold=HOLD, rid='10.0.0.9', version=4, caps=True, ext=False):
     """a valid OPEN of the remote speaker, built with the real Open class"""
     from exabgp.bgp.message.open import Open, Version, RouterID
     from exabgp.bgp.message.open.asn import ASN
@@ -652,6 +657,10 @@ def open_bytes(asn=65001, hold=HOLD, rid='10.0.0.9', version=4, caps=True):
         capa[Capability.CODE.MULTIPROTOCOL] = mp
         capa[Capability.CODE.ROUTE_REFRESH] = RouteRefresh()
         capa[Capability.CODE.FOUR_BYTES_ASN] = ASN4(asn)
+        if ext:
+            from exabgp.bgp.message.open.capability.extended import ExtendedMessage
+
+            capa[Capability.CODE.EXTENDED_MESSAGE] = ExtendedMessage()  # RFC 8654
     o = Open.make_open(Version(version), ASN(asn), HoldTime(hold), RouterID(rid), capa)
     return o.pack_message(Negotiated.make_negotiated(Neighbor.EMPTY, Direction.IN))
 
@@ -672,6 +681,19 @@ ASPATH = attr(0x40, 2, b'\x02\x01' + struct.pack('!I', 65001))  # AS_SEQUENCE [6
 NEXTHOP = attr(0x40, 3, bytes([192, 0, 2, 1]))
 
 
+def big_update(total):
+    """a valid UPDATE of exactly `total` octets: only withdrawn IPv4 routes (/24: 4 octets, /32: 5 octets), all distinct"""
+    wlen = total - 23
+    n5 = wlen % 4
+    n4 = (wlen - 5 * n5) // 4
+    assert n4 >= 0 and 4 * n4 + 5 * n5 == wlen
+    wd = b''.join(bytes([24, 11 + (i >> 16), (i >> 8) & 255, i & 255]) for i in range(n4))
+    wd += b''.join(bytes([32, 9, 9, 9, i]) for i in range(n5))
+    out = msg(2, struct.pack('!H', len(wd)) + wd + b'\x00\x00')
+    assert len(out) == total
+    return out
+
+
 def wire(kind):
     """concrete bytes of the remote speaker for an abstract message kind -> (bytes, event name, event arg)
     The expected (code, subcode) of the error kinds is what RFC 4271 s6 / RFC 6608 / RFC 7313 say for the class;
@@ -679,6 +701,12 @@ def wire(kind):
     k = kind
     if k == 'OpenOk':
         return open_bytes()
+    if k == 'OpenOkExt':  # valid OPEN announcing Extended Message (RFC 8654)
+        return open_bytes(ext=True)
+    if k.startswith('UpdateBig'):  # valid UPDATE of that many octets
+        return big_update(int(k[len('UpdateBig'):]))
+    if k == 'HeaderOver4097':  # a 4097-octet UPDATE on a session without Extended Message: 1/2
+        return big_update(4097)
     if k == 'OpenOkLow':  # valid OPEN with a BGP identifier lower than ours (10.0.0.5)
         return open_bytes(rid='10.0.0.1')
     if k == 'OpenBadVersion':  # 2/1
@@ -743,6 +771,7 @@ def wire(kind):
 
 
 def run_script(steps, conf=CONF, gap=0.5, trace_exc=False, api_subs=False):
+    conf = CONFS.get(conf, conf)
     """steps: list of [what, arg]; what in
          'tick'            let time pass until the peer starts a new attempt (bounded) or `arg` seconds
          'connect_ok' / 'connect_fail'
